@@ -87,9 +87,14 @@ theorem dedupAttrs_eq (attrs : List Attr) : dedupAttrs attrs = attrs.foldl dedup
 theorem any_name_iff (kept : List Attr) (a : Attr) :
     kept.any (fun b => b.name == a.name) = true ↔ a.name ∈ kept.map (·.name) := by
   simp only [List.any_eq_true, beq_iff_eq, List.mem_map]
-  constructor
-  · rintro ⟨b, hb, e⟩; exact ⟨b, hb, e⟩
-  · rintro ⟨b, hb, e⟩; exact ⟨b, hb, e⟩
+
+theorem dedupStep_cases (kept : List Attr) (a : Attr) :
+    (a.name ∈ kept.map (·.name) ∧ dedupStep kept a = kept)
+    ∨ (a.name ∉ kept.map (·.name) ∧ dedupStep kept a = kept ++ [a]) := by
+  unfold dedupStep
+  split
+  · rename_i h; rw [any_name_iff] at h; exact .inl ⟨h, rfl⟩
+  · rename_i h; rw [any_name_iff] at h; exact .inr ⟨h, rfl⟩
 
 theorem foldl_dedup_nodup (attrs kept : List Attr) (h : (kept.map (·.name)).Nodup) :
     ((attrs.foldl dedupStep kept).map (·.name)).Nodup := by
@@ -98,12 +103,9 @@ theorem foldl_dedup_nodup (attrs kept : List Attr) (h : (kept.map (·.name)).Nod
   | cons a rest ih =>
     simp only [List.foldl_cons]
     apply ih
-    unfold dedupStep
-    split
+    rcases dedupStep_cases kept a with ⟨_, e⟩ | ⟨hn, e⟩ <;> rw [e]
     · exact h
-    · rename_i hn
-      rw [any_name_iff] at hn
-      simp only [List.map_append, List.map_cons, List.map_nil]
+    · simp only [List.map_append, List.map_cons, List.map_nil]
       rw [List.nodup_append]
       refine ⟨h, by simp, ?_⟩
       intro x hx y hy
@@ -121,8 +123,7 @@ theorem foldl_dedup_sublist (attrs kept : List Attr) :
   | nil => simp
   | cons a rest ih =>
     simp only [List.foldl_cons]
-    unfold dedupStep
-    split
+    rcases dedupStep_cases kept a with ⟨_, e⟩ | ⟨_, e⟩ <;> rw [e]
     · refine (ih kept).trans ?_
       exact List.Sublist.append_left (List.sublist_cons_self a rest) kept
     · have := ih (kept ++ [a])
@@ -138,11 +139,10 @@ theorem foldl_dedup_prefix (attrs kept : List Attr) :
   | nil => exact ⟨[], by simp⟩
   | cons a rest ih =>
     simp only [List.foldl_cons]
-    unfold dedupStep
-    split
+    rcases dedupStep_cases kept a with ⟨_, e⟩ | ⟨_, e⟩ <;> rw [e]
     · exact ih kept
     · obtain ⟨m, hm⟩ := ih (kept ++ [a])
-      exact ⟨a :: m, by simp [hm]⟩
+      exact ⟨a :: m, by rw [hm]; simp⟩
 
 /-- the first attribute wins: an attribute whose name does not occur before it is kept -/
 theorem C01_dedupAttrs_first_wins (pre : List Attr) (a : Attr) (post : List Attr)
@@ -155,9 +155,9 @@ theorem C01_dedupAttrs_first_wins (pre : List Attr) (a : Attr) (post : List Attr
     simp only [List.nil_append] at hsub
     exact (hsub.map (·.name)).subset hm
   have hstep : dedupStep (pre.foldl dedupStep []) a = pre.foldl dedupStep [] ++ [a] := by
-    unfold dedupStep
-    rw [if_neg]
-    rw [any_name_iff]; exact hnot
+    rcases dedupStep_cases (pre.foldl dedupStep []) a with ⟨hin, _⟩ | ⟨_, e⟩
+    · exact absurd hin hnot
+    · exact e
   rw [hstep]
   obtain ⟨m, hm⟩ := foldl_dedup_prefix post (pre.foldl dedupStep [] ++ [a])
   rw [hm]; simp
@@ -192,5 +192,430 @@ theorem C01_spec_single_eof (tree : Tree) (s : St) (last : Option Str) (inp : St
       obtain ⟨e, _, he⟩ := List.mem_map.1 hm
       exact toToken_ne_eof e he
     simp [this]
+
+/-! ## totality: the fuel `tokenize` provides always suffices
+
+Every step either consumes at least one input character, or leaves the input alone and moves to a
+state of strictly smaller `rank` (for the character being looked at): the chains of "reconsume in …"
+are finite. `rank` is 0 for the states that always consume (or stop at EOF). -/
+
+open H5V.Spec.HtmlTokenizer.Tok
+
+def rank (s : St) (c : Option Char) : Nat :=
+  match s with
+  | .afterAttributeName =>
+    match c with
+    | none => 0
+    | some c => if c = '\t' ∨ c = '\n' ∨ c = '\x0c' ∨ c = ' ' ∨ c = '/' ∨ c = '=' ∨ c = '>' then 0 else 2
+  | .attributeName | .beforeAttributeValue | .tagOpen | .endTagOpen => 1
+  | .beforeAttributeName => 3
+  | .afterAttributeValueQuoted | .selfClosingStartTag => 4
+  | .rcdataLessThanSign | .rcdataEndTagName | .rawtextLessThanSign | .rawtextEndTagName
+  | .scriptDataLessThanSign | .scriptDataEndTagName | .scriptDataEscapedEndTagName => 1
+  | .rcdataEndTagOpen | .rawtextEndTagOpen | .scriptDataEndTagOpen | .scriptDataEscapedEndTagOpen => 2
+  | .scriptDataEscapeStart | .scriptDataEscapeStartDash | .scriptDataDoubleEscapeStart
+  | .scriptDataDoubleEscapedLessThanSign | .scriptDataDoubleEscapeEnd => 1
+  | .scriptDataEscapedLessThanSign => 2
+  | .markupDeclarationOpen => 1
+  | .commentStart | .commentStartDash | .commentLessThanSign | .commentLessThanSignBang
+  | .commentEndDash | .commentEnd | .commentEndBang => 1
+  | .commentLessThanSignBangDash | .commentLessThanSignBangDashDash => 2
+  | .doctype | .afterDoctypeName | .afterDoctypePublicKeyword | .beforeDoctypePublicIdentifier
+  | .afterDoctypePublicIdentifier | .betweenDoctypePublicAndSystemIdentifiers
+  | .afterDoctypeSystemKeyword | .beforeDoctypeSystemIdentifier | .afterDoctypeSystemIdentifier => 1
+  | .cdataSectionBracket | .cdataSectionEnd => 1
+  | .numericCharacterReferenceEnd | .ambiguousAmpersand => 1
+  | .hexadecimalCharacterReference | .decimalCharacterReference | .namedCharacterReference => 2
+  | .hexadecimalCharacterReferenceStart | .decimalCharacterReferenceStart | .characterReference => 3
+  | .numericCharacterReference => 4
+  | _ => 0
+
+def Good (s : St) (c : Option Char) (nonempty : Prop) (r : Res) : Prop :=
+  match r.2 with
+  | .stop => True
+  | .advance n => (n = 0 ∧ rank r.1.state c < rank s c) ∨ (1 ≤ n ∧ nonempty)
+
+theorem rank_toSt (r : ReturnSt) (c : Option Char) : rank r.toSt c = 0 := by cases r <;> rfl
+
+set_option linter.unusedSimpArgs false
+macro "good_tac" : tactic =>
+  `(tactic| ((repeat' split) <;>
+      (try simp_all [Good, switchTo, Tok.done, emitEOF, reconsumeIn, rank_toSt, setState]) <;>
+      (try simp_all [rank])))
+
+theorem good_data (t : Tok) (c : Option Char) : Good .data c (c ≠ none) (dataState t c) := by
+  unfold dataState; good_tac
+
+theorem good_rcdata (t : Tok) (c : Option Char) : Good .rcdata c (c ≠ none) (rcdataState t c) := by
+  unfold rcdataState; good_tac
+
+theorem good_rawtext (t : Tok) (c : Option Char) : Good .rawtext c (c ≠ none) (rawtextState t c) := by
+  unfold rawtextState; good_tac
+
+theorem good_scriptData (t : Tok) (c : Option Char) : Good .scriptData c (c ≠ none) (scriptDataState t c) := by
+  unfold scriptDataState; good_tac
+
+theorem good_plaintext (t : Tok) (c : Option Char) : Good .plaintext c (c ≠ none) (plaintextState t c) := by
+  unfold plaintextState; good_tac
+
+theorem good_tagOpen (t : Tok) (c : Option Char) : Good .tagOpen c (c ≠ none) (tagOpenState t c) := by
+  unfold tagOpenState; good_tac
+
+theorem good_endTagOpen (t : Tok) (c : Option Char) : Good .endTagOpen c (c ≠ none) (endTagOpenState t c) := by
+  unfold endTagOpenState; good_tac
+
+theorem good_rcdataLessThanSign (t : Tok) (c : Option Char) : Good .rcdataLessThanSign c (c ≠ none) (rcdataLessThanSignState t c) := by
+  unfold rcdataLessThanSignState; good_tac
+
+theorem good_rcdataEndTagOpen (t : Tok) (c : Option Char) : Good .rcdataEndTagOpen c (c ≠ none) (rcdataEndTagOpenState t c) := by
+  unfold rcdataEndTagOpenState; good_tac
+
+theorem good_rawtextLessThanSign (t : Tok) (c : Option Char) : Good .rawtextLessThanSign c (c ≠ none) (rawtextLessThanSignState t c) := by
+  unfold rawtextLessThanSignState; good_tac
+
+theorem good_rawtextEndTagOpen (t : Tok) (c : Option Char) : Good .rawtextEndTagOpen c (c ≠ none) (rawtextEndTagOpenState t c) := by
+  unfold rawtextEndTagOpenState; good_tac
+
+theorem good_scriptDataLessThanSign (t : Tok) (c : Option Char) : Good .scriptDataLessThanSign c (c ≠ none) (scriptDataLessThanSignState t c) := by
+  unfold scriptDataLessThanSignState; good_tac
+
+theorem good_scriptDataEndTagOpen (t : Tok) (c : Option Char) : Good .scriptDataEndTagOpen c (c ≠ none) (scriptDataEndTagOpenState t c) := by
+  unfold scriptDataEndTagOpenState; good_tac
+
+theorem good_scriptDataEscapeStart (t : Tok) (c : Option Char) : Good .scriptDataEscapeStart c (c ≠ none) (scriptDataEscapeStartState t c) := by
+  unfold scriptDataEscapeStartState; good_tac
+
+theorem good_scriptDataEscapeStartDash (t : Tok) (c : Option Char) : Good .scriptDataEscapeStartDash c (c ≠ none) (scriptDataEscapeStartDashState t c) := by
+  unfold scriptDataEscapeStartDashState; good_tac
+
+theorem good_scriptDataEscaped (t : Tok) (c : Option Char) : Good .scriptDataEscaped c (c ≠ none) (scriptDataEscapedState t c) := by
+  unfold scriptDataEscapedState; good_tac
+
+theorem good_scriptDataEscapedDash (t : Tok) (c : Option Char) : Good .scriptDataEscapedDash c (c ≠ none) (scriptDataEscapedDashState t c) := by
+  unfold scriptDataEscapedDashState; good_tac
+
+theorem good_scriptDataEscapedDashDash (t : Tok) (c : Option Char) : Good .scriptDataEscapedDashDash c (c ≠ none) (scriptDataEscapedDashDashState t c) := by
+  unfold scriptDataEscapedDashDashState; good_tac
+
+theorem good_scriptDataEscapedLessThanSign (t : Tok) (c : Option Char) : Good .scriptDataEscapedLessThanSign c (c ≠ none) (scriptDataEscapedLessThanSignState t c) := by
+  unfold scriptDataEscapedLessThanSignState; good_tac
+
+theorem good_scriptDataEscapedEndTagOpen (t : Tok) (c : Option Char) : Good .scriptDataEscapedEndTagOpen c (c ≠ none) (scriptDataEscapedEndTagOpenState t c) := by
+  unfold scriptDataEscapedEndTagOpenState; good_tac
+
+theorem good_scriptDataDoubleEscapeStart (t : Tok) (c : Option Char) : Good .scriptDataDoubleEscapeStart c (c ≠ none) (scriptDataDoubleEscapeStartState t c) := by
+  unfold scriptDataDoubleEscapeStartState; good_tac
+
+theorem good_scriptDataDoubleEscaped (t : Tok) (c : Option Char) : Good .scriptDataDoubleEscaped c (c ≠ none) (scriptDataDoubleEscapedState t c) := by
+  unfold scriptDataDoubleEscapedState; good_tac
+
+theorem good_scriptDataDoubleEscapedDash (t : Tok) (c : Option Char) : Good .scriptDataDoubleEscapedDash c (c ≠ none) (scriptDataDoubleEscapedDashState t c) := by
+  unfold scriptDataDoubleEscapedDashState; good_tac
+
+theorem good_scriptDataDoubleEscapedDashDash (t : Tok) (c : Option Char) : Good .scriptDataDoubleEscapedDashDash c (c ≠ none) (scriptDataDoubleEscapedDashDashState t c) := by
+  unfold scriptDataDoubleEscapedDashDashState; good_tac
+
+theorem good_scriptDataDoubleEscapedLessThanSign (t : Tok) (c : Option Char) : Good .scriptDataDoubleEscapedLessThanSign c (c ≠ none) (scriptDataDoubleEscapedLessThanSignState t c) := by
+  unfold scriptDataDoubleEscapedLessThanSignState; good_tac
+
+theorem good_scriptDataDoubleEscapeEnd (t : Tok) (c : Option Char) : Good .scriptDataDoubleEscapeEnd c (c ≠ none) (scriptDataDoubleEscapeEndState t c) := by
+  unfold scriptDataDoubleEscapeEndState; good_tac
+
+theorem good_beforeAttributeName (t : Tok) (c : Option Char) : Good .beforeAttributeName c (c ≠ none) (beforeAttributeNameState t c) := by
+  unfold beforeAttributeNameState; good_tac
+
+theorem good_attributeName (t : Tok) (c : Option Char) : Good .attributeName c (c ≠ none) (attributeNameState t c) := by
+  unfold attributeNameState; good_tac
+
+theorem good_attributeValueDoubleQuoted (t : Tok) (c : Option Char) : Good .attributeValueDoubleQuoted c (c ≠ none) (attributeValueDoubleQuotedState t c) := by
+  unfold attributeValueDoubleQuotedState; good_tac
+
+theorem good_attributeValueSingleQuoted (t : Tok) (c : Option Char) : Good .attributeValueSingleQuoted c (c ≠ none) (attributeValueSingleQuotedState t c) := by
+  unfold attributeValueSingleQuotedState; good_tac
+
+theorem good_bogusComment (t : Tok) (c : Option Char) : Good .bogusComment c (c ≠ none) (bogusCommentState t c) := by
+  unfold bogusCommentState; good_tac
+
+theorem good_commentStart (t : Tok) (c : Option Char) : Good .commentStart c (c ≠ none) (commentStartState t c) := by
+  unfold commentStartState; good_tac
+
+theorem good_commentStartDash (t : Tok) (c : Option Char) : Good .commentStartDash c (c ≠ none) (commentStartDashState t c) := by
+  unfold commentStartDashState; good_tac
+
+theorem good_comment (t : Tok) (c : Option Char) : Good .comment c (c ≠ none) (commentState t c) := by
+  unfold commentState; good_tac
+
+theorem good_commentLessThanSign (t : Tok) (c : Option Char) : Good .commentLessThanSign c (c ≠ none) (commentLessThanSignState t c) := by
+  unfold commentLessThanSignState; good_tac
+
+theorem good_commentLessThanSignBang (t : Tok) (c : Option Char) : Good .commentLessThanSignBang c (c ≠ none) (commentLessThanSignBangState t c) := by
+  unfold commentLessThanSignBangState; good_tac
+
+theorem good_commentLessThanSignBangDash (t : Tok) (c : Option Char) : Good .commentLessThanSignBangDash c (c ≠ none) (commentLessThanSignBangDashState t c) := by
+  unfold commentLessThanSignBangDashState; good_tac
+
+theorem good_commentLessThanSignBangDashDash (t : Tok) (c : Option Char) : Good .commentLessThanSignBangDashDash c (c ≠ none) (commentLessThanSignBangDashDashState t c) := by
+  unfold commentLessThanSignBangDashDashState; good_tac
+
+theorem good_commentEndDash (t : Tok) (c : Option Char) : Good .commentEndDash c (c ≠ none) (commentEndDashState t c) := by
+  unfold commentEndDashState; good_tac
+
+theorem good_commentEnd (t : Tok) (c : Option Char) : Good .commentEnd c (c ≠ none) (commentEndState t c) := by
+  unfold commentEndState; good_tac
+
+theorem good_commentEndBang (t : Tok) (c : Option Char) : Good .commentEndBang c (c ≠ none) (commentEndBangState t c) := by
+  unfold commentEndBangState; good_tac
+
+theorem good_doctype (t : Tok) (c : Option Char) : Good .doctype c (c ≠ none) (doctypeState t c) := by
+  unfold doctypeState; good_tac
+
+theorem good_beforeDoctypeName (t : Tok) (c : Option Char) : Good .beforeDoctypeName c (c ≠ none) (beforeDoctypeNameState t c) := by
+  unfold beforeDoctypeNameState; good_tac
+
+theorem good_doctypeName (t : Tok) (c : Option Char) : Good .doctypeName c (c ≠ none) (doctypeNameState t c) := by
+  unfold doctypeNameState; good_tac
+
+theorem good_afterDoctypePublicKeyword (t : Tok) (c : Option Char) : Good .afterDoctypePublicKeyword c (c ≠ none) (afterDoctypePublicKeywordState t c) := by
+  unfold afterDoctypePublicKeywordState; good_tac
+
+theorem good_beforeDoctypePublicIdentifier (t : Tok) (c : Option Char) : Good .beforeDoctypePublicIdentifier c (c ≠ none) (beforeDoctypePublicIdentifierState t c) := by
+  unfold beforeDoctypePublicIdentifierState; good_tac
+
+theorem good_doctypePublicIdentifierDoubleQuoted (t : Tok) (c : Option Char) : Good .doctypePublicIdentifierDoubleQuoted c (c ≠ none) (doctypePublicIdentifierDoubleQuotedState t c) := by
+  unfold doctypePublicIdentifierDoubleQuotedState; good_tac
+
+theorem good_doctypePublicIdentifierSingleQuoted (t : Tok) (c : Option Char) : Good .doctypePublicIdentifierSingleQuoted c (c ≠ none) (doctypePublicIdentifierSingleQuotedState t c) := by
+  unfold doctypePublicIdentifierSingleQuotedState; good_tac
+
+theorem good_afterDoctypePublicIdentifier (t : Tok) (c : Option Char) : Good .afterDoctypePublicIdentifier c (c ≠ none) (afterDoctypePublicIdentifierState t c) := by
+  unfold afterDoctypePublicIdentifierState; good_tac
+
+theorem good_betweenDoctypePublicAndSystemIdentifiers (t : Tok) (c : Option Char) : Good .betweenDoctypePublicAndSystemIdentifiers c (c ≠ none) (betweenDoctypePublicAndSystemIdentifiersState t c) := by
+  unfold betweenDoctypePublicAndSystemIdentifiersState; good_tac
+
+theorem good_afterDoctypeSystemKeyword (t : Tok) (c : Option Char) : Good .afterDoctypeSystemKeyword c (c ≠ none) (afterDoctypeSystemKeywordState t c) := by
+  unfold afterDoctypeSystemKeywordState; good_tac
+
+theorem good_beforeDoctypeSystemIdentifier (t : Tok) (c : Option Char) : Good .beforeDoctypeSystemIdentifier c (c ≠ none) (beforeDoctypeSystemIdentifierState t c) := by
+  unfold beforeDoctypeSystemIdentifierState; good_tac
+
+theorem good_doctypeSystemIdentifierDoubleQuoted (t : Tok) (c : Option Char) : Good .doctypeSystemIdentifierDoubleQuoted c (c ≠ none) (doctypeSystemIdentifierDoubleQuotedState t c) := by
+  unfold doctypeSystemIdentifierDoubleQuotedState; good_tac
+
+theorem good_doctypeSystemIdentifierSingleQuoted (t : Tok) (c : Option Char) : Good .doctypeSystemIdentifierSingleQuoted c (c ≠ none) (doctypeSystemIdentifierSingleQuotedState t c) := by
+  unfold doctypeSystemIdentifierSingleQuotedState; good_tac
+
+theorem good_afterDoctypeSystemIdentifier (t : Tok) (c : Option Char) : Good .afterDoctypeSystemIdentifier c (c ≠ none) (afterDoctypeSystemIdentifierState t c) := by
+  unfold afterDoctypeSystemIdentifierState; good_tac
+
+theorem good_bogusDoctype (t : Tok) (c : Option Char) : Good .bogusDoctype c (c ≠ none) (bogusDoctypeState t c) := by
+  unfold bogusDoctypeState; good_tac
+
+theorem good_cdataSection (t : Tok) (c : Option Char) : Good .cdataSection c (c ≠ none) (cdataSectionState t c) := by
+  unfold cdataSectionState; good_tac
+
+theorem good_cdataSectionBracket (t : Tok) (c : Option Char) : Good .cdataSectionBracket c (c ≠ none) (cdataSectionBracketState t c) := by
+  unfold cdataSectionBracketState; good_tac
+
+theorem good_cdataSectionEnd (t : Tok) (c : Option Char) : Good .cdataSectionEnd c (c ≠ none) (cdataSectionEndState t c) := by
+  unfold cdataSectionEndState; good_tac
+
+theorem good_characterReference (t : Tok) (c : Option Char) : Good .characterReference c (c ≠ none) (characterReferenceState t c) := by
+  unfold characterReferenceState; good_tac
+
+theorem good_ambiguousAmpersand (t : Tok) (c : Option Char) : Good .ambiguousAmpersand c (c ≠ none) (ambiguousAmpersandState t c) := by
+  unfold ambiguousAmpersandState; good_tac
+
+theorem good_numericCharacterReference (t : Tok) (c : Option Char) : Good .numericCharacterReference c (c ≠ none) (numericCharacterReferenceState t c) := by
+  unfold numericCharacterReferenceState; good_tac
+
+theorem good_hexadecimalCharacterReferenceStart (t : Tok) (c : Option Char) : Good .hexadecimalCharacterReferenceStart c (c ≠ none) (hexadecimalCharacterReferenceStartState t c) := by
+  unfold hexadecimalCharacterReferenceStartState; good_tac
+
+theorem good_decimalCharacterReferenceStart (t : Tok) (c : Option Char) : Good .decimalCharacterReferenceStart c (c ≠ none) (decimalCharacterReferenceStartState t c) := by
+  unfold decimalCharacterReferenceStartState; good_tac
+
+theorem good_hexadecimalCharacterReference (t : Tok) (c : Option Char) : Good .hexadecimalCharacterReference c (c ≠ none) (hexadecimalCharacterReferenceState t c) := by
+  unfold hexadecimalCharacterReferenceState; good_tac
+
+theorem good_decimalCharacterReference (t : Tok) (c : Option Char) : Good .decimalCharacterReference c (c ≠ none) (decimalCharacterReferenceState t c) := by
+  unfold decimalCharacterReferenceState; good_tac
+
+theorem good_tagName (tree : Tree) (t : Tok) (c : Option Char) : Good .tagName c (c ≠ none) (tagNameState tree t c) := by
+  unfold tagNameState; good_tac
+
+theorem good_afterAttributeName (tree : Tree) (t : Tok) (c : Option Char) : Good .afterAttributeName c (c ≠ none) (afterAttributeNameState tree t c) := by
+  unfold afterAttributeNameState; good_tac
+
+theorem good_beforeAttributeValue (tree : Tree) (t : Tok) (c : Option Char) : Good .beforeAttributeValue c (c ≠ none) (beforeAttributeValueState tree t c) := by
+  unfold beforeAttributeValueState; good_tac
+
+theorem good_attributeValueUnquoted (tree : Tree) (t : Tok) (c : Option Char) : Good .attributeValueUnquoted c (c ≠ none) (attributeValueUnquotedState tree t c) := by
+  unfold attributeValueUnquotedState; good_tac
+
+theorem good_afterAttributeValueQuoted (tree : Tree) (t : Tok) (c : Option Char) : Good .afterAttributeValueQuoted c (c ≠ none) (afterAttributeValueQuotedState tree t c) := by
+  unfold afterAttributeValueQuotedState; good_tac
+
+theorem good_selfClosingStartTag (tree : Tree) (t : Tok) (c : Option Char) : Good .selfClosingStartTag c (c ≠ none) (selfClosingStartTagState tree t c) := by
+  unfold selfClosingStartTagState; good_tac
+
+theorem good_rcdataEndTagName (tree : Tree) (t : Tok) (c : Option Char) : Good .rcdataEndTagName c (c ≠ none) (rcdataEndTagNameState tree t c) := by
+  unfold rcdataEndTagNameState genericEndTagNameState; good_tac
+
+theorem good_rawtextEndTagName (tree : Tree) (t : Tok) (c : Option Char) : Good .rawtextEndTagName c (c ≠ none) (rawtextEndTagNameState tree t c) := by
+  unfold rawtextEndTagNameState genericEndTagNameState; good_tac
+
+theorem good_scriptDataEndTagName (tree : Tree) (t : Tok) (c : Option Char) : Good .scriptDataEndTagName c (c ≠ none) (scriptDataEndTagNameState tree t c) := by
+  unfold scriptDataEndTagNameState genericEndTagNameState; good_tac
+
+theorem good_scriptDataEscapedEndTagName (tree : Tree) (t : Tok) (c : Option Char) : Good .scriptDataEscapedEndTagName c (c ≠ none) (scriptDataEscapedEndTagNameState tree t c) := by
+  unfold scriptDataEscapedEndTagNameState genericEndTagNameState; good_tac
+
+theorem good_markupDeclarationOpen (tree : Tree) (t : Tok) (inp : Str) :
+    Good .markupDeclarationOpen inp.head? (inp ≠ []) (markupDeclarationOpenState tree t inp) := by
+  unfold markupDeclarationOpenState
+  split
+  · rename_i h
+    have : inp ≠ [] := by intro e; subst e; simp [nextAre] at h
+    simp [Good, this]
+  · split
+    · rename_i h
+      have : inp ≠ [] := by intro e; subst e; simp [nextAreCaseInsensitive] at h
+      simp [Good, this]
+    · split
+      · rename_i h
+        have : inp ≠ [] := by intro e; subst e; simp [nextAre] at h
+        split <;> simp [Good, this]
+      · simp [Good, setState, rank]
+
+theorem good_afterDoctypeName (t : Tok) (inp : Str) :
+    Good .afterDoctypeName inp.head? (inp ≠ []) (afterDoctypeNameState t inp) := by
+  unfold afterDoctypeNameState
+  cases inp with
+  | nil => simp [Good, emitEOF]
+  | cons c rest =>
+    simp only [List.head?_cons]
+    good_tac
+
+theorem longestNamedReference_ne_nil {inp : Str} {r} (h : longestNamedReference inp = some r) : inp ≠ [] := by
+  intro e; subst e; simp [longestNamedReference] at h
+
+theorem good_return {s : St} {c : Option Char} (hs : 0 < rank s c) (t1 : Tok) (r : ReturnSt) (n : Nat)
+    (P : Prop) (h : n = 0 ∨ (1 ≤ n ∧ P)) : Good s c P (t1.setState r.toSt, .advance n) := by
+  unfold Good
+  simp only [setState, rank_toSt]
+  rcases h with h | h
+  · exact .inl ⟨h, hs⟩
+  · exact .inr h
+
+theorem good_namedCharacterReference (t : Tok) (inp : Str) :
+    Good .namedCharacterReference inp.head? (inp ≠ []) (namedCharacterReferenceState t inp) := by
+  unfold namedCharacterReferenceState
+  split
+  · rename_i name cp1 cp2 h
+    have hne := longestNamedReference_ne_nil h
+    have hn : name.length = 0 ∨ (1 ≤ name.length ∧ inp ≠ []) := by
+      by_cases h0 : name.length = 0
+      · exact .inl h0
+      · exact .inr ⟨Nat.one_le_iff_ne_zero.2 h0, hne⟩
+    simp only []
+    split
+    · exact good_return (by simp [rank]) _ _ _ _ hn
+    · exact good_return (by simp [rank]) _ _ _ _ hn
+  · simp [Good, setState, rank]
+
+theorem good_numericCharacterReferenceEnd (t : Tok) (c : Option Char) (P : Prop) :
+    Good .numericCharacterReferenceEnd c P (numericCharacterReferenceEndState t) := by
+  unfold numericCharacterReferenceEndState
+  exact good_return (by simp [rank]) _ _ _ _ (.inl rfl)
+
+theorem head?_ne_none {inp : Str} (h : inp.head? ≠ none) : inp ≠ [] := by
+  intro e; subst e; simp at h
+
+theorem Good.mono {s c} {P Q : Prop} {r : Res} (h : Good s c P r) (hpq : P → Q) : Good s c Q r := by
+  unfold Good at *
+  split <;> simp_all
+  rcases h with h | h
+  · exact .inl h
+  · exact .inr ⟨h.1, hpq h.2⟩
+
+theorem good_step (tree : Tree) (t : Tok) (inp : Str) :
+    Good t.state inp.head? (inp ≠ []) (step tree t inp) := by
+  unfold step
+  cases t.state <;> simp only [] <;>
+    first
+    | exact good_markupDeclarationOpen ..
+    | exact good_afterDoctypeName ..
+    | exact good_namedCharacterReference ..
+    | exact good_numericCharacterReferenceEnd ..
+    | (refine Good.mono ?_ head?_ne_none
+       first | exact good_data .. | exact good_rcdata .. | exact good_rawtext .. | exact good_scriptData .. | exact good_plaintext .. | exact good_tagOpen .. | exact good_endTagOpen .. | exact good_rcdataLessThanSign .. | exact good_rcdataEndTagOpen .. | exact good_rawtextLessThanSign .. | exact good_rawtextEndTagOpen .. | exact good_scriptDataLessThanSign .. | exact good_scriptDataEndTagOpen .. | exact good_scriptDataEscapeStart .. | exact good_scriptDataEscapeStartDash .. | exact good_scriptDataEscaped .. | exact good_scriptDataEscapedDash .. | exact good_scriptDataEscapedDashDash .. | exact good_scriptDataEscapedLessThanSign .. | exact good_scriptDataEscapedEndTagOpen .. | exact good_scriptDataDoubleEscapeStart .. | exact good_scriptDataDoubleEscaped .. | exact good_scriptDataDoubleEscapedDash .. | exact good_scriptDataDoubleEscapedDashDash .. | exact good_scriptDataDoubleEscapedLessThanSign .. | exact good_scriptDataDoubleEscapeEnd .. | exact good_beforeAttributeName .. | exact good_attributeName .. | exact good_attributeValueDoubleQuoted .. | exact good_attributeValueSingleQuoted .. | exact good_bogusComment .. | exact good_commentStart .. | exact good_commentStartDash .. | exact good_comment .. | exact good_commentLessThanSign .. | exact good_commentLessThanSignBang .. | exact good_commentLessThanSignBangDash .. | exact good_commentLessThanSignBangDashDash .. | exact good_commentEndDash .. | exact good_commentEnd .. | exact good_commentEndBang .. | exact good_doctype .. | exact good_beforeDoctypeName .. | exact good_doctypeName .. | exact good_afterDoctypePublicKeyword .. | exact good_beforeDoctypePublicIdentifier .. | exact good_doctypePublicIdentifierDoubleQuoted .. | exact good_doctypePublicIdentifierSingleQuoted .. | exact good_afterDoctypePublicIdentifier .. | exact good_betweenDoctypePublicAndSystemIdentifiers .. | exact good_afterDoctypeSystemKeyword .. | exact good_beforeDoctypeSystemIdentifier .. | exact good_doctypeSystemIdentifierDoubleQuoted .. | exact good_doctypeSystemIdentifierSingleQuoted .. | exact good_afterDoctypeSystemIdentifier .. | exact good_bogusDoctype .. | exact good_cdataSection .. | exact good_cdataSectionBracket .. | exact good_cdataSectionEnd .. | exact good_characterReference .. | exact good_ambiguousAmpersand .. | exact good_numericCharacterReference .. | exact good_hexadecimalCharacterReferenceStart .. | exact good_decimalCharacterReferenceStart .. | exact good_hexadecimalCharacterReference .. | exact good_decimalCharacterReference .. | exact good_tagName .. | exact good_afterAttributeName .. | exact good_beforeAttributeValue .. | exact good_attributeValueUnquoted .. | exact good_afterAttributeValueQuoted .. | exact good_selfClosingStartTag .. | exact good_rcdataEndTagName .. | exact good_rawtextEndTagName .. | exact good_scriptDataEndTagName .. | exact good_scriptDataEscapedEndTagName ..)
+
+/-- **the per-step measure.** A step that does not stop either reconsumes (`n = 0`) into a state of
+strictly smaller rank for the same next character, or consumes `n ≥ 1` characters of a non-empty
+input. -/
+theorem C01_spec_step_measure (tree : Tree) (t t' : Tok) (inp : Str) (n : Nat)
+    (h : step tree t inp = (t', .advance n)) :
+    (n = 0 ∧ rank t'.state inp.head? < rank t.state inp.head?) ∨ (1 ≤ n ∧ inp ≠ []) := by
+  have := good_step tree t inp
+  simpa [Good, h] using this
+
+theorem rank_lt (s : St) (c : Option Char) : rank s c < stepsPerChar := by
+  unfold rank stepsPerChar
+  cases s <;> simp only [] <;> (try split) <;> (try split) <;> omega
+
+/-- the measure that every step decreases -/
+def measure (t : Tok) (inp : Str) : Nat := stepsPerChar * inp.length + rank t.state inp.head?
+
+theorem step_measure_lt (tree : Tree) (t t' : Tok) (inp : Str) (n : Nat)
+    (h : step tree t inp = (t', .advance n)) : measure t' (inp.drop n) < measure t inp := by
+  rcases C01_spec_step_measure tree t t' inp n h with ⟨rfl, hr⟩ | ⟨hn, hne⟩
+  · simpa [measure] using hr
+  · unfold measure
+    have h1 : (inp.drop n).length + 1 ≤ inp.length := by
+      have : 0 < inp.length := List.length_pos_iff.2 hne
+      rw [List.length_drop]; omega
+    have h2 := rank_lt t'.state (inp.drop n).head?
+    have h3 : stepsPerChar * ((inp.drop n).length + 1) ≤ stepsPerChar * inp.length :=
+      Nat.mul_le_mul_left _ h1
+    rw [Nat.mul_add, Nat.mul_one] at h3
+    omega
+
+/-- with more fuel than the measure the run ends with the end-of-file token -/
+theorem C01_spec_run_steps (tree : Tree) (fuel : Nat) (t : Tok) (inp : Str)
+    (h : measure t inp < fuel) : (run tree fuel t inp).isSome := by
+  induction fuel generalizing t inp with
+  | zero => omega
+  | succ fuel ih =>
+    unfold run
+    split
+    · simp
+    · rename_i t' n hs
+      apply ih
+      have := step_measure_lt tree t t' inp n hs
+      omega
+
+/-- **totality.** For every feedback, start state, last start tag name and input the specification
+delivers a token list: at most `stepsPerChar · (|input| + 1) + 1` steps are needed. -/
+theorem C01_spec_total (tree : Tree) (s : St) (last : Option Str) (inp : Str) :
+    (tokenize tree s last inp).isSome := by
+  unfold tokenize
+  rw [Option.isSome_map]
+  apply C01_spec_run_steps
+  unfold measure fuelFor
+  have := rank_lt (Tok.initial s last).state inp.head?
+  rw [Nat.mul_add, Nat.mul_one]
+  omega
+
+/-- non-vacuity: a run through tags, attributes, a character reference, a comment and a DOCTYPE -/
+example :
+    tokenize ⟨fun _ _ => .none, fun _ => false⟩ .data none "<!DOCTYPE html><a b=&amp; B=c>x</a><!--y-->".toList
+      = some [.doctype { name := some "html".toList },
+              .tag { kind := .startTag, name := ['a'], selfClosing := false,
+                     attrs := [⟨['b'], ['&']⟩], hadDup := true },
+              .chars ['x'],
+              .tag { kind := .endTag, name := ['a'], selfClosing := false, attrs := [], hadDup := false },
+              .comment ['y'], .eof] := by
+  decide
 
 end H5V.Props.C01
